@@ -200,3 +200,100 @@ example : (run initTls [.new 0, .poll 0, .new 1, .poll 1, .drop 0, .send, .poll 
     [.finished, .pending, .finished, .pending, .finished, .finished, .info, .finished, .info] := by decide
 
 end Hd.TlsInfo
+
+/-! ## The information is never invented
+
+Two safety statements about the `TlsInfo` channel model that complement `C20_tls_request_never_told_plain`:
+    the information a request is given is never invented. On a connection without TLS no request is ever given
+    TLS information, and on a TLS connection no request is given it before the acceptor has sent it (i.e. before
+    the handshake is over) - for every interleaving of asking, polling and cancelling. -/
+namespace Hd.TlsInfo
+
+/-- channel states in which there is nothing to hand out: "no TLS", and "handshake not finished" -/
+def Quiet (c : Ch) : Prop := c = .empty ∨ c = .pending false
+
+theorem writePhase_quiet (s : St) (i : Nat) (h : Quiet s.ch) :
+    (writePhase s i).1 ≠ .info ∧ (writePhase s i).2.ch = s.ch := by
+  unfold writePhase
+  rcases h with hc | hc <;> simp [hc]
+
+theorem readPhase_quiet (s : St) (i : Nat) (h : Quiet s.ch) :
+    (readPhase s i).1 ≠ .info ∧ (readPhase s i).2.ch = s.ch := by
+  unfold readPhase
+  rcases h with hc | hc
+  · simp [hc]
+  · simp only [hc]
+    have hq : Quiet (acquire (giveBack s 1) i maxP).2.ch := by simp [Quiet, hc]
+    have he : (acquire (giveBack s 1) i maxP).2.ch = .pending false := by simp [hc]
+    split
+    · have := writePhase_quiet (acquire (giveBack s 1) i maxP).2 i hq
+      exact ⟨this.1, this.2.trans he⟩
+    · exact ⟨by simp, by simpa using he⟩
+
+/-- one step that is not the acceptor's `send` hands out nothing and leaves a quiet channel as it is -/
+theorem step_quiet (s : St) (op : Op) (h : Quiet s.ch) (hop : op = .send → s.ch = .empty) :
+    (step s op).1 ≠ .info ∧ (step s op).2.ch = s.ch := by
+  cases op with
+  | new i => exact ⟨by simp [step], rfl⟩
+  | send =>
+    have hc := hop rfl
+    simp [step, hc]
+  | poll i =>
+    simp only [step]
+    cases hp : s.phase i with
+    | fresh =>
+      simp only []
+      have he : (acquire s i 1).2.ch = s.ch := acquire_ch s i 1
+      generalize acquire s i 1 = a at he
+      obtain ⟨ok, s1⟩ := a
+      simp only [] at he ⊢
+      split
+      · have := readPhase_quiet s1 i (he ▸ h)
+        exact ⟨this.1, this.2.trans he⟩
+      · exact ⟨by simp, by simpa using he⟩
+    | waitRead => exact ⟨by simp, rfl⟩
+    | waitWrite => exact ⟨by simp, rfl⟩
+    | grantedRead => exact readPhase_quiet s i h
+    | grantedWrite => exact writePhase_quiet s i h
+    | holding => exact writePhase_quiet s i h
+    | done => exact ⟨by simp, rfl⟩
+  | drop i =>
+    simp only [step]
+    cases hp : s.phase i <;> exact ⟨by simp, by simp⟩
+
+/-- **A connection without TLS never yields TLS information.** Whatever requests do and even if somebody `send`s:
+    no request on a channel made by `TlsConnectionInfoReciever::empty()` is ever given connection information. -/
+theorem C20_plain_request_never_told_info (ops : List Op) : Res.info ∉ (run initPlain ops).1 := by
+  have key : ∀ (ops : List Op) (s : St), s.ch = .empty → Res.info ∉ (run s ops).1 := by
+    intro ops
+    induction ops with
+    | nil => intro s _; simp [run]
+    | cons op ops ih =>
+      intro s h
+      have hs := step_quiet s op (Or.inl h) (fun _ => h)
+      simp only [run, List.mem_cons, not_or]
+      exact ⟨fun e => hs.1 e.symm, ih _ (hs.2.trans h)⟩
+  exact key ops initPlain rfl
+
+/-- **No information before the handshake is over.** As long as the acceptor has not sent, no request of a TLS
+    connection is given connection information - every one of them is still waiting (or was cancelled). -/
+theorem C20_no_info_before_send (ops : List Op) (hns : Op.send ∉ ops) : Res.info ∉ (run initTls ops).1 := by
+  have key : ∀ (ops : List Op) (s : St), s.ch = .pending false → Op.send ∉ ops → Res.info ∉ (run s ops).1 := by
+    intro ops
+    induction ops with
+    | nil => intro s _ _; simp [run]
+    | cons op ops ih =>
+      intro s h hn
+      simp only [List.mem_cons, not_or] at hn
+      have hs := step_quiet s op (Or.inr h) (fun e => absurd e.symm hn.1)
+      simp only [run, List.mem_cons, not_or]
+      exact ⟨fun e => hs.1 e.symm, ih _ (hs.2.trans h) hn.2⟩
+  exact key ops initTls rfl hns
+
+/-- non-vacuity: with a `send` the information does arrive (so the hypothesis of `C20_no_info_before_send` matters),
+    and a plain connection answers "no TLS" -/
+example : Res.info ∈ (run initTls [.new 0, .poll 0, .send, .poll 0]).1 := by decide
+example : (run initPlain [.new 0, .poll 0, .send, .new 1, .poll 1]).1 = [.finished, .none, .finished, .finished, .none] := by
+  decide
+
+end Hd.TlsInfo
